@@ -55,6 +55,9 @@ pub struct Env<'a> {
     max_calls: usize,
     /// number of non-empty data reads; seeks do not reset it
     pub seeks: usize,
+    /// read() calls (by index) that fail with ErrorKind::Interrupted instead of answering; by
+    /// std's contract the caller is expected to retry
+    interrupts: Vec<usize>,
 }
 
 impl<'a> Env<'a> {
@@ -67,10 +70,15 @@ impl<'a> Env<'a> {
             log: Vec::new(),
             max_calls: 64 + 16 * data.len(),
             seeks: 0,
+            interrupts: Vec::new(),
         }
     }
     pub fn with_max_calls(mut self, n: usize) -> Self {
         self.max_calls = n;
+        self
+    }
+    pub fn with_interrupts(mut self, calls: &[usize]) -> Self {
+        self.interrupts = calls.to_vec();
         self
     }
 }
@@ -79,6 +87,11 @@ impl<'a> Read for Env<'a> {
     fn read(&mut self, buf: &mut [u8]) -> io::Result<usize> {
         if self.calls >= self.max_calls {
             panic!("environment: reader issued more than {} read calls (no termination)", self.max_calls);
+        }
+        if self.interrupts.contains(&self.calls) {
+            self.calls += 1;
+            self.log.push(0);
+            return Err(io::Error::new(io::ErrorKind::Interrupted, "interrupted (injected)"));
         }
         let lim = self.sched.limit(self.calls).max(1);
         self.calls += 1;
